@@ -17,6 +17,7 @@ type VerifSyncStateView struct {
 	SyncedSinceCheckpoint bool
 	SyncedToWALEnd        bool
 	LastSyncedWALOffset   int64
+	ReachedWALEnd         bool
 }
 
 // VerifSyncState returns a copy of db.syncState.
@@ -28,6 +29,7 @@ func (db *DB) VerifSyncState() VerifSyncStateView {
 		SyncedSinceCheckpoint: db.syncState.syncedSinceCheckpoint,
 		SyncedToWALEnd:        db.syncState.syncedToWALEnd,
 		LastSyncedWALOffset:   db.syncState.lastSyncedWALOffset,
+		ReachedWALEnd:         db.syncState.reachedWALEnd,
 	}
 }
 
